@@ -248,7 +248,9 @@ class Proc:
         e["ASAN_OPTIONS"] = "exitcode=99:detect_leaks=0:abort_on_error=0:allocator_may_return_null=1"
         if env:
             e.update(env)
-        self.p = subprocess.Popen(argv, stdin=subprocess.PIPE, stdout=subprocess.PIPE, stderr=subprocess.PIPE, bufsize=0, env=e)
+        # own session: the process and everything it forks (probe children) can be killed together
+        self.p = subprocess.Popen(argv, stdin=subprocess.PIPE, stdout=subprocess.PIPE, stderr=subprocess.PIPE, bufsize=0, env=e,
+                                  start_new_session=True)
         self.dead = None
         self.buf = b""
         self.errbuf = []
@@ -299,10 +301,7 @@ class Proc:
         while True:
             out = self._readline(deadline)
             if out is None:
-                try:
-                    self.p.kill()
-                except Exception:
-                    pass
+                self._killgroup()
                 self.p.wait()
                 self.dead = "hang"
                 self.errthread.join(timeout=2)
@@ -313,8 +312,18 @@ class Proc:
             if out.startswith("#"):
                 side.append(out); continue
             return out, side
+    def _killgroup(self):
+        import signal
+        try:
+            os.killpg(self.p.pid, signal.SIGKILL)
+        except Exception:
+            try:
+                self.p.kill()
+            except Exception:
+                pass
     def _died(self):
         rc = self.p.wait()
+        self._killgroup()
         self.errthread.join(timeout=5)
         err = b"".join(self.errbuf).decode("utf-8", "replace")
         self.stderr = err
@@ -337,11 +346,12 @@ class Proc:
         try:
             self.p.wait(timeout=20)
         except Exception:
-            self.p.kill()
+            self._killgroup()
             try:
                 self.p.wait(timeout=5)
             except Exception:
                 pass
+        self._killgroup()      # stray children of a finished process
         if not hasattr(self, "stderr"):
             self.errthread.join(timeout=2)
             self.stderr = b"".join(self.errbuf).decode("utf-8", "replace")
@@ -424,7 +434,7 @@ def run_script(exe, lines, model_pre=(), tmpdir=None, real_env=None):
     return res
 
 
-REAL_ONLY = {"sys.info", "codec.sweep32", "crc.cpu", "cz.raw", "cz.direct", "cz.libinfo", "cz.gen", "cz.big", "mt.run", "crc.big", "rv.big4g", "wa.huge", "wa.gen"}
+REAL_ONLY = {"sys.info", "codec.sweep32", "crc.cpu", "cz.raw", "cz.direct", "cz.libinfo", "cz.gen", "cz.big", "mt.run", "crc.big", "rv.big4g", "wa.huge", "wa.gen", "crc.mt"}
 # requests that legitimately take long (multi-gigabyte probes)
 OP_TIMEOUT = {"rv.big4g": 1500, "wa.huge": 1500, "crc.big": 900, "codec.sweep32": 1500, "mt.run": 600, "cz.big": 600}
 MODEL_ONLY = {"enc.raw", "enc.legal", "enc.file", "ctab", "cz.plan", "f.validate", "tp.enum"}
